@@ -374,6 +374,35 @@ def roots(ctx, F):
            'their path below the build directory')
 
 
+# GNU coding standards, "Variables for Installation Directories": which
+# variable each default directory is expressed in (so that --exec-prefix and
+# --prefix move exactly the directories they are documented to move)
+GNU_DIR_ROOTS = {'exec_prefix': 'prefix', 'bindir': 'exec_prefix',
+                 'libdir': 'exec_prefix', 'includedir': 'prefix',
+                 'datadir': 'prefix', 'mandir': 'datadir'}
+
+
+def install_dirs(ctx, F):
+    repo = ctx.repo
+    f = F.fn('bfg9000.platforms.posix:PosixTargetPlatform.install_dirs')
+    got = {}
+    for d in ast.walk(f.node):
+        if isinstance(d, ast.Dict):
+            for k, v in zip(d.keys, d.values):
+                if k is None or not isinstance(v, ast.Call) or len(
+                        v.args) < 2:
+                    continue
+                got[unparse(k).split('.')[-1]] = unparse(
+                    v.args[1]).split('.')[-1]
+    Q.require(len(got) >= 6, 'posix install_dirs table not found')
+    for name, root in sorted(GNU_DIR_ROOTS.items()):
+        ctx.ob(R, 'install_dirs|{}-below-{}'.format(name, root),
+               got.get(name) == root, f.node,
+               'the default {} is expressed in {} instead of {}: '
+               '--{} no longer moves it'.format(
+                   name, got.get(name), root, root.replace('_', '-')))
+
+
 def check(ctx):
     ctx.not_decided += [
         'the file tree actually produced by doppel and patchelf under all '
@@ -385,6 +414,7 @@ def check(ctx):
              'install_deps are installed recursively (all as value-flow / '
              'control-dependence / dominance facts)')
     F = Facts(ctx.repo)
+    install_dirs(ctx, F)
     commands(ctx, F)
     rpath(ctx, F)
     installify(ctx, F)
